@@ -75,6 +75,7 @@ type rpcRec struct {
 	InvokeDone bool
 	InvokeErr  error
 	RespOK     bool
+	atCancel   map[string]blockedCall // calls of this rpc that were blocked when its context was cancelled
 
 	HStarted  bool
 	HStartStep int
@@ -343,6 +344,7 @@ func (x *e1) runClientRPC(r *rpcRec) {
 			r.Cancelled = true
 			r.CancelStep = x.d.Step
 			x.d.Record(taskName(), "cancel", fmt.Sprintf("rpc%d", spec.Idx))
+			x.snapshotBlocked(r)
 		}
 		cancel()
 	}
@@ -455,23 +457,34 @@ func (x *e1) execOp(sd *sideRec, op Op) {
 		b := msgBytes(k, sd.dir, op.Sender, op.Seq, op.Size)
 		rec := &sendRec{Op: op, Start: x.d.Step, Bytes: b}
 		sd.Sends = append(sd.Sends, rec)
+		termAtStart := x.terminated(st)
 		sd.InCall++
 		x.call(fmt.Sprintf("%s.MsgSend rpc%d", who, k), func() { rec.Err = st.MsgSend(&Msg{B: b}, x.enc) })
 		sd.InCall--
+		if termAtStart && r.Cancelled && sd.client && rec.Err == nil {
+			x.viol("cancel-later-op", fmt.Sprintf("send issued on a cancelled, terminated rpc succeeded mode=%s", x.cancelMode()), fmt.Sprintf("rpc%d %s", k, op))
+		}
 		rec.Done, rec.End = true, x.d.Step
+		x.checkCancelledCall(sd, "MsgSend", rec.Start, rec.Err)
 		x.d.Record(taskName(), who+".send-return", fmt.Sprintf("rpc%d s%d#%d size=%d %s", k, op.Sender, op.Seq, op.Size, errStr(rec.Err)))
 		x.afterSend(sd, rec)
 	case OpRecv, OpRecvAll:
 		for i := 0; i < 400; i++ {
 			m := &Msg{}
 			var err error
+			recvStart := x.d.Step
+			termAtStart := x.terminated(st)
 			sd.InCall++
 			x.call(fmt.Sprintf("%s.MsgRecv rpc%d", who, k), func() { err = st.MsgRecv(m, x.enc) })
+			if termAtStart && r.Cancelled && sd.client && err == nil {
+				x.viol("cancel-later-op", fmt.Sprintf("receive issued on a cancelled, terminated rpc succeeded mode=%s", x.cancelMode()), fmt.Sprintf("rpc%d", k))
+			}
 			sd.InCall--
 			rr := &recvRec{Step: x.d.Step, Err: err}
 			if err == nil {
 				rr.Data = m.B
 			}
+			x.checkCancelledCall(sd, "MsgRecv", recvStart, err)
 			sd.Recvs = append(sd.Recvs, rr)
 			if err == nil {
 				x.d.Record(taskName(), who+".recv-return", fmt.Sprintf("rpc%d %s", k, msgDescribe(m.B)))
@@ -520,6 +533,8 @@ func (x *e1) execOp(sd *sideRec, op Op) {
 		})
 		sd.InCall--
 		x.d.Record(taskName(), who+".ctx-done", fmt.Sprintf("rpc%d", k))
+	case OpDelay:
+		x.delay("op-delay", op.Size)
 	case OpJoin:
 		for i := 0; i < op.Size && i < len(sd.auxDone); i++ {
 			sd.auxDone[i].Wait()
@@ -656,4 +671,66 @@ func containsAny(s string, subs ...string) bool {
 		}
 	}
 	return false
+}
+
+func (x *e1) terminated(st drpc.Stream) bool {
+	if ds, ok := st.(*drpcstream.Stream); ok {
+		return ds.IsTerminated()
+	}
+	return false
+}
+
+// snapshotBlocked records which client calls of rpc r are durably blocked at the
+// instant its context is cancelled (C04: those must report the context's error).
+func (x *e1) snapshotBlocked(r *rpcRec) {
+	r.atCancel = map[string]blockedCall{}
+	for _, t := range x.rt.Tasks() {
+		if t.State != verifsim.StWaiting || t.API == "" || strings.HasPrefix(t.API, "h.") {
+			continue
+		}
+		if apiRPC(t.API) != r.Spec.Idx {
+			continue
+		}
+		r.atCancel[t.Name] = blockedCall{t.Name, t.API, whereClass(t.Label)}
+	}
+}
+
+// checkCancelledCall: a receive that was blocked waiting for a message, and (hard
+// mode) a send that was blocked in the transport, when the context was
+// cancelled must return the context's error.
+func (x *e1) checkCancelledCall(sd *sideRec, verb string, start int, err error) {
+	r := sd.rpc
+	if !sd.client || r.atCancel == nil {
+		return
+	}
+	bc, ok := r.atCancel[taskName()]
+	if !ok {
+		return
+	}
+	delete(r.atCancel, taskName())
+	if start >= r.CancelStep || !strings.Contains(bc.API, verb) {
+		return
+	}
+	switch {
+	case verb == "MsgRecv" && bc.Where == "cond:Get":
+		x.res.probe("cancel_while_recv_blocked")
+		if sd.ClosedByMe {
+			return // the application's own Close races with the cancel: either error is fine
+		}
+		if err == nil || !isCtxErr(err) {
+			// a message or another terminal event may legitimately win the race;
+			// only a non-context *error* that is not end-of-stream/handler error is wrong
+			if err != nil && err != io.EOF && !isHandlerText(err) && !strings.Contains(err.Error(), "closed") {
+				x.viol("cancel-error", fmt.Sprintf("receive blocked at cancel returned a foreign error mode=%s class=%s", x.cancelMode(), errClass(err)), errStr(err))
+			}
+		}
+	case verb == "MsgSend" && bc.Where == "net.write" && !x.prog.Cfg.SoftC:
+		x.res.probe("cancel_while_send_parked")
+		// io.EOF is the documented result of a send on a stream that is already
+		// cancelled (the parked write may have completed before the transport
+		// was closed); anything else must be the context's error
+		if err != nil && !isCtxErr(err) && err != io.EOF && !sd.ClosedByMe {
+			x.viol("cancel-error", fmt.Sprintf("send blocked in the transport at cancel returned %s instead of the context error (default mode)", errClass(err)), errStr(err))
+		}
+	}
 }
